@@ -249,3 +249,42 @@ def _(self, data: Str, encoder: Obj("Encoder")):
                     g_hdr == old(encoder.chunks_number_of_bits) + old(encoder.number_of_bits)
                     + (1 if self.has_extension_marker else 0)))
     loop(0, invariant=[encoder.chunks_number_of_bits + encoder.number_of_bits >= g_hdr])
+
+
+@contract("asn1tools/codecs/per.py", "to_byte_array", props=["C05", "C08"])
+def _(num: Nat, number_of_bits: Int) -> ByteArray:
+    # ceil(number_of_bits / 8) octets of num, most significant first
+    ensures(len(result) == (0 if number_of_bits <= 0 else (number_of_bits + 7) // 8))
+    loop(0, invariant=[num >= 0, len(byte_array) * 8 + number_of_bits == old(number_of_bits),
+                       number_of_bits > -8 or (old(number_of_bits) <= 0 and len(byte_array) == 0)],
+         decreases=number_of_bits)
+
+
+@contract("asn1tools/codecs/per.py", "PermittedAlphabet.decode", props=["C05", "C12"])
+def _(self, value: Nat) -> Nat:
+    raises_iff(DecodeError, value not in self.decode_map)
+    ensures(result == self.decode_map[value])
+
+
+@contract("asn1tools/codecs/per.py", "KnownMultiplierStringType.decode_unbound", abstract=True)
+def _(self, decoder: Obj("Decoder")) -> Str:
+    raises(DecodeError)
+    raises(UnicodeDecodeError)
+    assigns(decoder)
+    ensures(decoder.number_of_bits <= old(decoder.number_of_bits) and decoder.value == old(decoder.value))
+
+
+@contract("KnownMultiplierStringType.decode", props=["C05", "C01", "C16", "C08"], for_class="any")
+def _(self, decoder: Obj("Decoder")) -> Str:
+    # every read is checked; an extension bit 1 is refused (not implemented); a code outside the permitted alphabet
+    # is a decode error; exactly length * bits_per_character bits of characters are consumed
+    raises(DecodeError)
+    raises(UnicodeDecodeError)
+    raises(NotImplementedError)
+    assigns(decoder)
+    ensures(decoder.number_of_bits <= old(decoder.number_of_bits) and decoder.value == old(decoder.value))
+    ensures(implies(self.number_of_bits is not None and not self.has_extension_marker and self.minimum == self.maximum,
+                    decoder.number_of_bits == old(decoder.number_of_bits) - self.minimum * self.bits_per_character))
+    loop(0, invariant=[decoder.value == old(decoder.value), decoder.total_number_of_bits == old(decoder.total_number_of_bits),
+                       decoder.number_of_bits == at_entry(decoder.number_of_bits, 0) - _i0 * self.bits_per_character,
+                       _i0 <= length])
